@@ -489,6 +489,12 @@ U(id="C05.rc.src", props=["C05"], file="range_dec.rs", harnesses=["c05_rc_stream
   functions=[("src/range_dec.rs", "read_u8", "RangeReader for T"), ("src/range_dec.rs", "try_read_u8", "RangeReader for T"), ("src/range_dec.rs", "read_u32_be", "RangeReader for T")],
   contract="stream byte fetch: bytes in order across Interrupted; try_read_u8 / read_u32_be return the source's error kind (EOF, hard error); known finding D19: read_u8 (used by normalize) turns a source error into the byte 0x00")
 
+U(id="C16.l2.read", props=["C16", "C07", "C04", "C05", "C01"], file="lzma2_reader.rs", features=NOSTD,
+  harnesses=["c16_l2_read_uncompressed_k1", "c16_l2_read_uncompressed_k3", "c16_l2_read_uncompressed_k4", "c04_l2_error_is_sticky_structural", "c04_l2_error_is_sticky_truncated"],
+  kind="bounded", bound="stream of two uncompressed chunks (3 + 1 bytes) + terminator + trailing bytes; first read of 1/3/4 bytes; no_std build",
+  functions=[("src/lzma2_reader.rs", "read_decode"), ("src/lzma2_reader.rs", "read", "Read for LZMA2Reader"), ("src/lzma2_reader.rs", "decode_chunk_header"), ("src/lz/lz_decoder.rs", "copy_uncompressed")],
+  contract="read loop over uncompressed chunks: bytes in order for every read split, end only after the terminator, exactly the stream's bytes consumed, later reads Ok(0) without touching the source; structural / truncation errors are returned with their kind and stay returned")
+
 # ---------------------------------------------------------------------------------------- quick-tier budget
 # Harnesses kept in the quick tier per unit; every other harness of the unit runs in the thorough tier only.
 QUICK_ONLY = {
